@@ -8,6 +8,22 @@ VERIF = os.path.dirname(os.path.dirname(os.path.abspath(__file__)))
 ALL = [f"C{i:02d}" for i in range(1, 21)]
 
 CHECKS = {
+    "C01": dict(
+        category="model_checking",
+        technique="explicit-state BFS over message histories through the real LangServer.run loop, heap-canonical state identity, refrpc oracle",
+        text=("Explicit-state exploration of the protocol loop: every history of messages up to the depth bound over an "
+              "alphabet of ~60 messages (lifecycle, unknown methods, sync events, every request method well-formed / "
+              "parameter-malformed / on a missing file) is fed as a byte stream to the real LangServer.run() on a fresh "
+              "server; states are merged on a heap canon of server+connection that is finer than anything a handler can "
+              "read; every transition's output is judged by the reference response model (exactly one response per "
+              "request with its id, result xor error, error code by cause, silence for notifications, arrival order, "
+              "parsable frames, loop alive until exit)."),
+        note=("Trusted: vf/canon.py (state identity), the independent frame reader, the refrpc rules in judge(). "
+              "multiprocessing.Pool is replaced by a synchronous stand-in in-process; a slice of reached histories is "
+              "replayed through the real `python -m fortls` and must give the same transcript. Bounds: depth 4 (quick) / 5 "
+              "(thorough); JSON-RPC batches and client responses are not generated."),
+        design="DESIGN.md §4 C01",
+    ),
     "C16": dict(
         category="exploration",
         technique="bounded-exhaustive enumeration of payloads x header layouts x chunk schedules on the real run() loop, independent framer",
